@@ -195,6 +195,16 @@ class Interp:
                         return B(x and y)
                     if op == 'BitOr' and a[0] == 'b':
                         return B(x or y)
+                    if op == 'BitAnd':
+                        return I(x & y)
+                    if op == 'BitOr':
+                        return I(x | y)
+                    if op == 'BitXor':
+                        return I(x ^ y)
+                    if op == 'Shr' and 0 <= y < 64:
+                        return I(x >> y)
+                    if op == 'Shl' and 0 <= y < 64:
+                        return I(x << y)
                 except Exception:
                     return TOP
             return TOP
